@@ -654,6 +654,10 @@ def ravel_dimensions(
 
     if linear_dimension is None:
         linear_dimension = find_unused_dimension(data_array, 'index')
+    elif linear_dimension in existing_dims:
+        # Two dimensions of one name can not be told apart again
+        raise ValueError(
+            f"Linear dimension {linear_dimension!r} is already a dimension of the data array")
     new_dims = existing_dims + (linear_dimension,)
 
     coords = {
